@@ -119,7 +119,7 @@ class Sched:
         if self.replay is not None and self.pos < len(self.replay):
             want = self.replay[self.pos]
             self.pos += 1
-            if want in runnable:
+            if want in self.alive:  # trust the recorded decision (it was runnable when recorded)
                 choice = want
         if choice is None:
             if self.pct is not None:
